@@ -280,13 +280,29 @@ impl C11 {
             cx.count("unreal2-failing-players-section-with-zero-announced");
         }
         let mut server = U2Server::new(st.info_datagram(), st.rules_datagrams(2), st.players_datagrams(2, true));
-        let beh = |o: Out, valid: Vec<UBehaviour>| match o {
+        // three kinds of malformed section, stratified over the repetitions of the cell: a datagram of another kind;
+        // a datagram with the right header whose body cannot be parsed (a UCS-2 string announcing more than is there);
+        // and - rules only, the players loop stops at the announced count - valid datagrams followed by such a one
+        let mv = (cx.idx / (VALVE_CELLS + U2_CELLS)) % 3;
+        cx.count(match mv { 0 => "unreal2-malformed-variant-wrong-kind", 1 => "unreal2-malformed-variant-bad-body", _ => "unreal2-malformed-variant-bad-later-datagram" });
+        let beh = |o: Out, valid: Vec<UBehaviour>, kind: u8| match o {
             Out::Valid => valid,
             Out::Silent | Out::ChallengeThenSilent => vec![UBehaviour::Silent],
-            Out::Malformed => vec![UBehaviour::Answer(vec![vec![0x80, 0, 0, 0, 0x07]])],
+            Out::Malformed => {
+                let bad_body: Vec<u8> = if kind == 1 { vec![0x80, 0, 0, 0, 1, 0x85, 0x47, 0x00] } else { vec![0x80, 0, 0, 0, 2, 1, 0, 0, 0, 0x85, 0x47, 0x00] };
+                match (mv, kind, valid.first()) {
+                    (0, _, _) => vec![UBehaviour::Answer(vec![vec![0x80, 0, 0, 0, 0x07]])],
+                    (2, 1, Some(UBehaviour::Answer(ds))) => {
+                        let mut ds = ds.clone();
+                        ds.push(bad_body);
+                        vec![UBehaviour::Answer(ds)]
+                    }
+                    _ => vec![UBehaviour::Answer(vec![bad_body])],
+                }
+            }
         };
-        server.plan[1] = beh(or, server.plan[1].clone());
-        server.plan[2] = beh(op, server.plan[2].clone());
+        server.plan[1] = beh(or, server.plan[1].clone(), 1);
+        server.plan[2] = beh(op, server.plan[2].clone(), 2);
         let gs = unreal2::GatheringSettings { players: tp, mutators_and_rules: tr };
         let ts = gamedig::TimeoutSettings::new(None, None, None, cx.rng.below(2) as usize).ok();
         let a = addr(7778);
@@ -359,7 +375,7 @@ impl Check for C11 {
         "exhaustive matrix, each cell with several random server states. Valve: 9 (players, rules) toggle pairs x 4 outcomes per section {valid, silent, malformed, challenge-then-silent} x app-id relation {main, dedicated, other, no expectation (Source(None)), no expectation (GoldSrc)} x check on/off = 1 440 cells; Unreal 2: 9 pairs x 3 outcomes per section = 81 cells. From log + result: Skip => that request kind never sent and the section absent; Try + failure => rest of the response equal to the fault-free one with the section absent; Enforce + failure => Err of that failure's class; Ok iff check off, or no expectation, or id in {main, dedicated}, else BadGame with no players/rules request after it. non-trivial = a cell whose verdict was reached; distinct by (cell, state)".into()
     }
     fn assumptions(&self) -> Vec<String> { vec!["'that failure's kind' is asserted by class: timeout-class (PacketReceive/PacketSend) for silence, a non-timeout kind for a malformed reply".into(), "server models as in C02/C06".into()] }
-    fn total_cases(&self, tier: Tier) -> u64 { (VALVE_CELLS + U2_CELLS) * tier.pick(20, 400) }
+    fn total_cases(&self, tier: Tier) -> u64 { (VALVE_CELLS + U2_CELLS) * tier.pick(60, 400) }
     fn exhaustive(&self, _tier: Tier) -> Option<bool> { Some(true) }
     fn run_case(&mut self, cx: &mut Cx) {
         let cell = cx.idx % (VALVE_CELLS + U2_CELLS);
